@@ -714,6 +714,76 @@ def render_wrap() -> str:
     return "\n".join(lines)
 
 
+# ---------------------------------------------------------------------------------------------
+# EqualsValidator (koda_validate/generic.py) -> Koda.EStmt (lean/KodaModel/PyEq.lean)
+
+OUT_EQ = os.path.join(os.path.dirname(OUT), "EqSrc.lean")
+EVARS = {"val": "val", "match_type": "matchType", "preprocess": "preprocess"}
+ESELF = {"match": "match_", "preprocessors": "preprocessors", "predicate": "predicate"}
+
+
+class ETr:
+    def exp(self, e: ast.expr) -> str:
+        if isinstance(e, ast.Name):
+            if e.id == "self":
+                return ".self"
+            if e.id in EVARS:
+                return f"(.var .{EVARS[e.id]})"
+        if isinstance(e, ast.Constant) and isinstance(e.value, bool):
+            return f"(.bool {'true' if e.value else 'false'})"
+        if isinstance(e, ast.Attribute) and isinstance(e.value, ast.Name) and e.value.id == "self":
+            a = f".{ESELF[e.attr]}" if e.attr in ESELF else f"(.other {lstr(e.attr)})"
+            return f"(.selfAttr {a})"
+        if isinstance(e, ast.NamedExpr) and isinstance(e.target, ast.Name) and e.target.id in EVARS:
+            return f"(.walrus .{EVARS[e.target.id]} {self.exp(e.value)})"
+        if isinstance(e, ast.Compare) and len(e.ops) == 1 and isinstance(e.ops[0], ast.Eq):
+            return f"(.eq {self.exp(e.left)} {self.exp(e.comparators[0])})"
+        if isinstance(e, ast.Tuple) and len(e.elts) == 2:
+            return f"(.pair {self.exp(e.elts[0])} {self.exp(e.elts[1])})"
+        if isinstance(e, ast.List) and len(e.elts) == 1:
+            return f"(.list1 {self.exp(e.elts[0])})"
+        if isinstance(e, ast.Call) and not e.keywords and not any(isinstance(a, ast.Starred) for a in e.args):
+            f, args = e.func, e.args
+            if isinstance(f, ast.Name) and f.id == "type" and len(args) == 1:
+                return f"(.typeOf {self.exp(args[0])})"
+            table = {"TypeErr": ("mkTypeErr", 1), "PredicateErrs": ("mkPredErrs", 1), "Invalid": ("mkInvalid", 3)}
+            if isinstance(f, ast.Name) and f.id in table and len(args) == table[f.id][1]:
+                return f"(.{table[f.id][0]} {' '.join(self.exp(a) for a in args)})"
+            if len(args) == 1 and not (isinstance(f, ast.Name) and f.id not in EVARS):
+                return f"(.call1 {self.exp(f)} {self.exp(args[0])})"
+        return f"(.unsupported {lstr(ast.dump(e)[:160])})"
+
+    def stmt(self, s: ast.stmt) -> str:
+        if isinstance(s, ast.Assign) and len(s.targets) == 1 and isinstance(s.targets[0], ast.Name) and s.targets[0].id in EVARS:
+            return f"(.assign .{EVARS[s.targets[0].id]} {self.exp(s.value)})"
+        if isinstance(s, ast.If):
+            return f"(.ite {self.exp(s.test)} {self.block(s.body)} {self.block(s.orelse)})"
+        if isinstance(s, ast.For) and isinstance(s.target, ast.Name) and s.target.id in EVARS and not s.orelse:
+            return f"(.forIn .{EVARS[s.target.id]} {self.exp(s.iter)} {self.block(s.body)})"
+        if isinstance(s, ast.Return) and s.value is not None:
+            return f"(.ret {self.exp(s.value)})"
+        return f"(.unsupported {lstr(ast.dump(s)[:160])})"
+
+    def block(self, body: List[ast.stmt]) -> str:
+        body = [s for s in body if not (isinstance(s, ast.Expr) and isinstance(s.value, ast.Constant))]
+        return "[" + ", ".join(self.stmt(s) for s in body) + "]"
+
+
+def render_eq() -> str:
+    m = _find_method("generic.py", "EqualsValidator", "_validate_to_tuple")
+    term = ETr().block(m.body) if m is not None and [a.arg for a in m.args.args] == ["self", "val"] else '[.unsupported "not found"]'
+    pins = []
+    for meth in ("_validate_to_tuple_async", "__init__"):
+        mm = _find_method("generic.py", "EqualsValidator", meth)
+        pins.append(f"EqualsValidator.{meth}: " + (" ; ".join(ast.unparse(b) for b in mm.body
+                                                              if not (isinstance(b, ast.Expr) and isinstance(b.value, ast.Constant)))
+                                                   if mm is not None else "<not found>"))
+    lines = ["/- GENERATED by harness/pysrc.py from the current source of /repo/koda_validate/generic.py — do not edit -/",
+             "import KodaModel.PyEq", "", "namespace Koda.Src", "", "def equalsSync : List EStmt :=", f"  {term}", "",
+             "def equalsPins : List String := [" + ", ".join(lstr(x) for x in pins) + "]", "", "end Koda.Src", ""]
+    return "\n".join(lines)
+
+
 def render() -> str:
     found = collect()
     lines = ["/- GENERATED by harness/pysrc.py from the current source of /repo/koda_validate — do not edit -/",
@@ -732,7 +802,7 @@ def render() -> str:
 
 def regenerate() -> bool:
     changed = False
-    for path, new in ((OUT, render()), (OUT_COERCE, render_coerce()), (OUT_SCALAR, render_scalar()), (OUT_UNION, render_union()), (OUT_LIST, render_list()), (OUT_WRAP, render_wrap())):
+    for path, new in ((OUT, render()), (OUT_COERCE, render_coerce()), (OUT_SCALAR, render_scalar()), (OUT_UNION, render_union()), (OUT_LIST, render_list()), (OUT_WRAP, render_wrap()), (OUT_EQ, render_eq())):
         old = open(path).read() if os.path.exists(path) else None
         if new != old:
             with open(path, "w") as f:
